@@ -242,6 +242,11 @@ func TestC14(t *testing.T) {
 		rep["client_err"] = fmt.Sprint(h.ClientErr)
 		rep["resumed"] = resumed
 		switch {
+		case want && h.ClientErr != nil && strings.Contains(h.ClientErr.Error(), "after a cached session for") && strings.HasPrefix(j.mode, "resumed"):
+			// the documented refusal of a connection whose name was edited after a cached
+			// session for the previous name had been attached (nothing is sent): not a verdict
+			// on the certificate
+			r.Count("refused_because_of_a_session_attached_for_another_name", 1)
 		case want && got != "ok":
 			// a session ticket server may refuse for its own reasons only by falling back to a full handshake, never by failing
 			sig["kind"] = "valid_certificate_rejected"
